@@ -1,0 +1,28 @@
+"""
+Verification hooks (inactive unless the environment variable DSW_VERIF is set to "1").
+
+A verification harness may install a sink with "install(sink)"; each instrumented loop head then reports
+one tick with a site name and a few cheap scalars. With the guard off, "ON" is False and nothing is called.
+"""
+from os import environ
+
+ON = environ.get("DSW_VERIF") == "1"
+
+_sink = None
+
+
+def install(sink):
+    """
+    Install (or remove, with None) the tick sink; return the previous one.
+    """
+    global _sink
+    previous, _sink = _sink, sink
+    return previous
+
+
+def tick(site, **scalars):
+    """
+    Report one loop iteration at the named site.
+    """
+    if _sink is not None:
+        _sink(site, scalars)
